@@ -208,6 +208,52 @@ theorem C09enc_text_cell {measure : Measure} {k : ColorCtx} {d : Doc} (R : Run m
 theorem C09enc_shape (a : Attr) (M : MatV) (h : a.toNested = .ok M) (hs : shapeOk a = true) : GoodV M :=
   toNested_goodV h hs
 
+/-! ## every form in which a component holds an attribute value
+
+The constructors accept one value in many spellings; after construction a table component (`TableAttributes`) holds
+  * a nested list for a Python scalar / list / tuple / nested list, a 2-D array and a data frame (`Attr.nested`), and
+  * a FLAT list for a 1-D array-like — numpy 1-D array, polars / pandas Series, numpy 0-d array, numpy integer / bool
+    scalar (`_to_nested_list` converts array-likes with `.tolist()` after its list / tuple branch) — `Attr.list`;
+a text component additionally holds tuples (`Attr.tuple`) and bare scalars (`Attr.scalar`).  `C09enc_binding` reads
+every attribute through `Attr.toNested` (the `BroadcastValue` validator, run on every use); the theorem below says what
+that reading is for each held form, at every row and column: a flat list is ONE ROW — a per-column vector, never
+indexed by the row —, a tuple one value per row, a scalar every cell, a nested list `Mat.iloc` cell by cell. -/
+theorem C09enc_held_forms :
+    (∀ (xs : List Val), xs.any Val.isScalar = true →
+      (Attr.list xs).toNested = .ok (some [xs]) ∧
+      ∀ (r c : Nat) (h : c < xs.length), ilocV (some [xs]) r c = .ok xs[c]) ∧
+    (∀ (xs : List Val),
+      (Attr.tuple xs).toNested = .ok (some (xs.map fun x => [x])) ∧
+      ∀ (r c : Nat) (h : r < xs.length), ilocV (some (xs.map fun x => [x])) r c = .ok xs[r]) ∧
+    (∀ (v : Val), v.isScalar = true →
+      (Attr.scalar v).toNested = .ok (some [[v]]) ∧ ∀ r c : Nat, ilocV (some [[v]]) r c = .ok v) ∧
+    (∀ (m : Mat Val), (Attr.nested m).toNested = .ok (some m)) := by
+  refine ⟨?_, ?_, ?_, ?_⟩
+  · intro xs hs
+    refine ⟨by simp [Attr.toNested, hs], ?_⟩
+    intro r c h
+    have h0 : xs.length ≠ 0 := by omega
+    simp [ilocV, Mat.iloc, Mat.ncols, h0, Nat.mod_one, Nat.mod_eq_of_lt h, List.getElem?_eq_getElem h]
+  · intro xs
+    refine ⟨rfl, ?_⟩
+    intro r c h
+    have h0 : xs.length ≠ 0 := by omega
+    have hn : Mat.ncols (xs.map fun x => [x]) = 1 := by
+      cases xs with
+      | nil => simp at h
+      | cons x t => simp [Mat.ncols]
+    simp [ilocV, Mat.iloc, hn, h0, Nat.mod_one, Nat.mod_eq_of_lt h, List.getElem?_map, List.getElem?_eq_getElem h]
+  · intro v hv
+    refine ⟨by simp [Attr.toNested, hv], ?_⟩
+    intro r c
+    simp [ilocV, Mat.iloc, Mat.ncols, Nat.mod_one]
+  · intro m
+    rfl
+
+/-- non-vacuity of `C09enc_held_forms`: `text_justification = numpy.array(["l", "c", "r"])` is held as the flat list
+`["l", "c", "r"]`; row 1, column 2 reads `"r"` (its column's entry), not `"c"` (the entry with the row's index) -/
+example : (Attr.list [.str "l", .str "c", .str "r"]).toNested = .ok (some [[.str "l", .str "c", .str "r"]]) ∧
+    ilocV (some [[.str "l", .str "c", .str "r"]]) 1 2 = .ok (.str "r") := by decide
 
 /-! ## non-vacuity -/
 
